@@ -10,7 +10,7 @@ sys.path.insert(0, os.path.join(vlib.VERIF, "gen"))
 import render  # noqa: E402
 
 
-def tlc_eval(progs, workers=None, timeout=900, cfg="AldorSem", module="AldorSem"):
+def tlc_eval(progs, workers=None, timeout=900, cfg="AldorSem", module="AldorSem", delassert=False):
     """Returns (dict id -> {"out": text, "status": s, "atoms": [...]}, TlcResult).
     module: a module that EXTENDS AldorSem (e.g. AldorSemW32: 32-bit machine integer), with its own cfg."""
     d = vlib.scratch("progs")
@@ -19,7 +19,10 @@ def tlc_eval(progs, workers=None, timeout=900, cfg="AldorSem", module="AldorSem"
     dropped = []
     for _attempt in range(6):
         vlib.write_ndjson(path, progs)
-        res = vlib.tlc(module, cfg, workers=workers, env={"PROGS": path}, timeout=timeout)
+        env = {"PROGS": path}
+        if delassert:           # behaviour under -Qdel-assert (levels -Q2 and above): assertions are deleted
+            env["DELASSERT"] = "1"
+        res = vlib.tlc(module, cfg, workers=workers, env=env, timeout=timeout)
         # an Integer that grows beyond the reach of BigZ.tla (32-bit column sums) aborts the whole TLC run:
         # such a program is outside the evaluable family; drop it and evaluate the rest
         m = re.search(r"/\\ pid = (\d+)", res.out) if (res.error and "Overflow when computing" in res.out) else None
